@@ -10,7 +10,7 @@ indexing / layout / shape-arithmetic computation traced on placeholders (`Identi
 inlined).  `eval` is the meaning of those ONNX operators on integer-valued N-d index-function tensors
 (`Tensor Int`; booleans are 0/1): `Slice`, `Gather`, `Unsqueeze`, `Squeeze`, `Transpose`, `Reshape(allowzero=1)`,
 `Expand`, `Concat`, `Shape`, `Range`, `Cast`, `Add/Sub/Mul`, `Mod(fmod=0)`, `Equal`, `Where`, `Reduce*`, `Compress(axis=0)`,
-`GatherElements(axis=0)`, `ScatterND`, `CumSum`, `Trilu`.  The data-movement
+`GatherElements(axis=0)`, `ScatterND`, `CumSum`, `Trilu`, `ArgMax` / `ArgMin`.  The data-movement
 operators do not inspect the elements, so what is proved about them on integer tokens is what ONNX specifies for
 every element type (`T: tensor(...)` of any type); the check repeats the structural comparison for every dtype.
 
@@ -56,6 +56,7 @@ inductive TG where
   | scatterND (x idx upd : TG)                       -- ScatterND(reduction = none)
   | cumsum (x axis : TG)                             -- CumSum(exclusive = 0, reverse = 0) on int64
   | trilu (upper : Bool) (x k : TG)                  -- Trilu on the last two axes
+  | argext (isMax : Bool) (axis : Nat) (keepdims : Bool) (x : TG)   -- ArgMax / ArgMin(select_last_index = 0), axis ≥ 0
 deriving DecidableEq, Repr, Inhabited
 
 /-! ## operator semantics -/
@@ -231,6 +232,23 @@ def triluOp (upper : Bool) (t : Tensor Int) (k : Int) : Tensor Int :=
     let j : Int := Int.ofNat (ix.getD (r - 1) 0)
     if (if upper then j ≥ i + k else j ≤ i + k) then t.get ix else 0⟩
 
+/-- Index of the first maximum (minimum) of a list; 0 for the empty list. -/
+def firstArg (isMax : Bool) : List Int → Nat
+  | [] => 0
+  | v :: l =>
+    (l.foldl (fun (acc : Nat × Int × Nat) w =>
+      if (if isMax then w > acc.2.1 else w < acc.2.1) then (acc.2.2, w, acc.2.2 + 1) else (acc.1, acc.2.1, acc.2.2 + 1))
+      (0, v, 1)).1
+
+/-- `ArgMax` / `ArgMin` (`select_last_index = 0`) along `axis`: the position of the first extremum of every slice. -/
+def argextOp (isMax : Bool) (t : Tensor Int) (axis : Nat) (keepdims : Bool) : Tensor Int :=
+  let n := t.shape.getD axis 0
+  { shape := if keepdims then t.shape.set axis 1 else t.shape.eraseIdx axis
+    get := fun o =>
+      let pre := o.take axis
+      let post := if keepdims then o.drop (axis + 1) else o.drop axis
+      Int.ofNat (firstArg isMax ((List.range n).map (fun j => t.get (pre ++ j :: post)))) }
+
 /-! ## evaluation -/
 
 def TG.eval (env : List (Tensor Int)) : TG → Tensor Int
@@ -260,6 +278,7 @@ def TG.eval (env : List (Tensor Int)) : TG → Tensor Int
   | .scatterND x i u => scatterNDOp (TG.eval env x) (TG.eval env i) (TG.eval env u)
   | .cumsum x a => cumsumOp (TG.eval env x) ((TG.eval env a).get [])
   | .trilu up x k => triluOp up (TG.eval env x) ((TG.eval env k).get [])
+  | .argext isMax axis kd x => argextOp isMax (TG.eval env x) axis kd
 
 /-! ## canonical text (identical to the translator's rendering) -/
 
@@ -298,5 +317,6 @@ def TG.render : TG → String
   | .scatterND x i u => s!"(ScatterND {TG.render x} {TG.render i} {TG.render u})"
   | .cumsum x a => s!"(CumSum {TG.render x} {TG.render a})"
   | .trilu up x k => s!"(Trilu {if up then 1 else 0} {TG.render x} {TG.render k})"
+  | .argext isMax axis kd x => s!"({if isMax then "ArgMax" else "ArgMin"} {axis} {if kd then 1 else 0} {TG.render x})"
 
 end Ndx.TGraph
